@@ -11,6 +11,7 @@ import (
 	"math/rand"
 	"net/http"
 	"net/http/httptest"
+	"net/url"
 	"os"
 	"strings"
 	"sync"
@@ -118,6 +119,8 @@ func runSSOProxy(args []string) error {
 			queries := []string{"", "", "?redirect=/after", "?redirect=http://proxy.wonderwall/x", "?redirect=http://evil.com/x", "?redirect=//evil.com/x",
 				"?redirect=https://wonderwall/other", "?redirect=http://wonderwall/oauth2/logout", "?redirect=%2F%2Fevil.com", "?redirect=http:evil.com",
 				"?sid=sid-1", "?level=idporten-loa-high&locale=nb&prompt=login", "?redirect=http://proxy.wonderwall.evil.com/"}
+			// near misses of the proxy's configured ingress (nearmiss.go): other scheme, port, sub-domain, userinfo, look-alikes
+			nearMiss := nearMisses("http://proxy.wonderwall")
 			methods := []string{"GET", "GET", "GET", "POST", "HEAD", "OPTIONS", "DELETE"}
 			for i := 0; i < nreq; i++ {
 				seq++
@@ -137,6 +140,9 @@ func runSSOProxy(args []string) error {
 				method := methods[rng.Intn(len(methods))]
 				path := paths[rng.Intn(len(paths))]
 				q := queries[rng.Intn(len(queries))]
+				if rng.Intn(4) == 0 {
+					q = "?redirect=" + url.QueryEscape(nearMiss[rng.Intn(len(nearMiss))])
+				}
 				host := "http://proxy.wonderwall"
 				rt := s.proxyRt
 				if target == "server" {
